@@ -1,4 +1,5 @@
 import IwModel.Lemmas.KvApi
+import IwModel.Lemmas.KvBridge
 /-! # C01 — the KV store behaves as an ordered map
 
 Property theorems only; helper lemmas live in `IwModel/Lemmas/Kv.lean`.
@@ -8,7 +9,10 @@ Property theorems only; helper lemmas live in `IwModel/Lemmas/Kv.lean`.
   upper, split at slot 17, node removal) refines the spec operation, for every drawn level, and keeps
   the node invariant — one step and whole histories;
 * API layer: a `put` that does not answer `ok` leaves the store unchanged, operations on one
-  database leave the others alone, effective keys unpack to what the caller passed. -/
+  database leave the others alone, effective keys unpack to what the caller passed;
+* the bridge to C19 (§5): the comparator the store uses (`KvApi.gtE flags`) IS a strict total order on
+  the effective keys a database can hold, in every key mode, so the refinement theorems hold for
+  it with no comparator hypothesis left (`store_refines_map` and its per-mode corollaries). -/
 namespace IwModel.C01
 open IwModel Kv
 
@@ -199,5 +203,185 @@ example : ∃ ek, KvApi.toEffective Gen.IWDB_VNUM64_KEYS [1, 2, 0, 0, 0, 0, 0, 0
     KvApi.unpack Gen.IWDB_VNUM64_KEYS ek = ([1, 2, 0, 0, 0, 0, 0, 0], 0) :=
   key_roundtrip_vnum8 Gen.IWDB_VNUM64_KEYS [1, 2, 0, 0, 0, 0, 0, 0] 0 (by decide) rfl
     (by intro b hb; simp at hb; omega) (by decide)
+
+
+/-! ### 5. the bridge to C19: the refinement theorems for the comparator the store uses
+
+§1–§3 assume `StrictTotal gt`. C19 proves the order facts for `_cmp_keys` mode by mode, on the keys
+that can occur (e.g. integer keys are vnum encodings of numbers below 2^63; without compound keys
+the compound part is not part of the key, so it must be fixed to 0 for `=` to be key identity).
+`StrictTotalOn P gt` is the predicate-relative form; `Lemmas/KvBridge.lean` moves the refinement
+from the subtype `{k // P k}` (where `StrictTotal` holds) to histories over all of `EKey` whose keys
+satisfy `P`, because the operations only ever compare keys. -/
+
+/-- `history_refines` for a comparator that is a strict total order on the keys satisfying `P`
+    (`StrictTotal` on the subtype): every history over such keys, with arbitrary level draws, from
+    the empty database — same answers as the ordered map, same final contents, valid chain, and
+    only `P`-keys stored. -/
+theorem history_refines_on {K V : Type} {P : K → Prop} {gt : K → K → Bool} (st : StrictTotalOn P gt)
+    (ops : List (Op K V)) (h : OpsOn P ops) :
+    (runNode gt ⟨[], []⟩ ops).2 = (runSpec gt [] ops).2 ∧
+    flatten (runNode gt ⟨[], []⟩ ops).1.nodes = (runSpec gt [] ops).1 ∧
+    NodeInv gt (runNode gt ⟨[], []⟩ ops).1.nodes ∧ KeysOn P (flatten (runNode gt ⟨[], []⟩ ops).1.nodes) :=
+  run_refines_on st ops h ⟨[], []⟩ nodeInv_nil keysOn_nil
+
+/-- the same from any valid state holding `P`-keys, whatever cursors are open -/
+theorem history_refines_on_from {K V : Type} {P : K → Prop} {gt : K → K → Bool} (st : StrictTotalOn P gt)
+    (ops : List (Op K V)) (h : OpsOn P ops) (d : Db K V) (inv : NodeInv gt d.nodes)
+    (hd : KeysOn P (flatten d.nodes)) :
+    (runNode gt d ops).2 = (runSpec gt (flatten d.nodes) ops).2 ∧
+    flatten (runNode gt d ops).1.nodes = (runSpec gt (flatten d.nodes) ops).1 ∧
+    NodeInv gt (runNode gt d ops).1.nodes ∧ KeysOn P (flatten (runNode gt d ops).1.nodes) :=
+  run_refines_on st ops h d inv hd
+
+/-- C19 ⇒ hypothesis of C01/C02: for EVERY database flags word, `_cmp_keys` as the store applies it
+    (`KvApi.gtE flags a b` = comparing lookup key `a` with stored key `b` is positive) is irreflexive,
+    transitive and trichotomous on the valid effective keys (`KvApi.Valid flags`: compound part 0
+    unless the database has compound keys; integer mode: body = vnum encoding of a number `< 2^63`;
+    real-number mode with compound keys: non-empty text). Proved from `C19.plain_antisymm/_trans/
+    _eq_iff/_compound_eq_iff`, `C19.vnum_total`, `C19.real_keys_total(_both)`. -/
+theorem comparator_strict_total (flags : Nat) : StrictTotalOn (KvApi.Valid flags) (KvApi.gtE flags) :=
+  KvApi.gtE_strictTotalOn flags
+
+/-- the restriction to the subtype of valid keys satisfies the unrelativised `StrictTotal` -/
+theorem comparator_strict_total_subtype (flags : Nat) :
+    StrictTotal (pull (Subtype.val : {k // KvApi.Valid flags k} → KvApi.EKey) (KvApi.gtE flags)) :=
+  (comparator_strict_total flags).lift
+
+/-- every effective key the API computes from a non-empty caller key (`_to_effective_key`; the entry
+    points reject empty keys) is valid for the database — so the histories of the theorems below
+    are exactly the ones the API can produce -/
+theorem api_keys_valid (flags : Nat) (key : Bytes) (comp : Nat) (ek : KvApi.EKey) (hne : key ≠ [])
+    (h : KvApi.toEffective flags key comp = .ok ek) : KvApi.Valid flags ek :=
+  KvApi.toEffective_valid flags key comp ek hne h
+
+/-- END TO END, every mode at once: for every flags word and every history of put / put-no-overwrite /
+    delete / get over valid effective keys, with every level choice, the node-level model started
+    from the empty database returns the same answers as the ordered reference map under the
+    store's own comparator, flattens to the map's contents, keeps the node invariant and holds
+    valid keys only. No comparator hypothesis. -/
+theorem store_refines_map (flags : Nat) (ops : List (Op KvApi.EKey Bytes)) (h : OpsOn (KvApi.Valid flags) ops) :
+    (runNode (KvApi.gtE flags) ⟨[], []⟩ ops).2 = (runSpec (KvApi.gtE flags) [] ops).2 ∧
+    flatten (runNode (KvApi.gtE flags) ⟨[], []⟩ ops).1.nodes = (runSpec (KvApi.gtE flags) [] ops).1 ∧
+    NodeInv (KvApi.gtE flags) (runNode (KvApi.gtE flags) ⟨[], []⟩ ops).1.nodes ∧
+    KeysOn (KvApi.Valid flags) (flatten (runNode (KvApi.gtE flags) ⟨[], []⟩ ops).1.nodes) :=
+  history_refines_on (comparator_strict_total flags) ops h
+
+/-- and the reference it refines is an ordered map under the store's comparator (§1 without the
+    comparator hypothesis): on a descending list of valid keys, put/del of a valid key keep it
+    descending and valid, a stored key is found with its value, a removed key is gone, and no
+    other valid key is affected. -/
+theorem store_map_laws (flags : Nat) {m : List (KvApi.EKey × Bytes)} (hd : Desc (KvApi.gtE flags) m)
+    (hm : KeysOn (KvApi.Valid flags) m) (k : KvApi.EKey) (hk : KvApi.Valid flags k) (v : Bytes) :
+    (Desc (KvApi.gtE flags) (specPut (KvApi.gtE flags) m k v) ∧
+      KeysOn (KvApi.Valid flags) (specPut (KvApi.gtE flags) m k v) ∧
+      specGet (KvApi.gtE flags) (specPut (KvApi.gtE flags) m k v) k = some v ∧
+      ∀ k', KvApi.Valid flags k' → k' ≠ k →
+        specGet (KvApi.gtE flags) (specPut (KvApi.gtE flags) m k v) k' = specGet (KvApi.gtE flags) m k') ∧
+    (Desc (KvApi.gtE flags) (specDel (KvApi.gtE flags) m k) ∧
+      KeysOn (KvApi.Valid flags) (specDel (KvApi.gtE flags) m k) ∧
+      specGet (KvApi.gtE flags) (specDel (KvApi.gtE flags) m k) k = none ∧
+      ∀ k', KvApi.Valid flags k' → k' ≠ k →
+        specGet (KvApi.gtE flags) (specDel (KvApi.gtE flags) m k) k' = specGet (KvApi.gtE flags) m k') :=
+  spec_laws_on (comparator_strict_total flags) hd hm k hk v
+
+/-- byte-string keys, no compound part (`flags = 0`): histories over keys `(b, 0)`, `b` ANY byte
+    string (no bound on length or byte values). -/
+theorem plain_store_refines_map (ops : List (Op KvApi.EKey Bytes)) (h : OpsOn KvApi.PlainKey ops) :
+    (runNode (KvApi.gtE 0) ⟨[], []⟩ ops).2 = (runSpec (KvApi.gtE 0) [] ops).2 ∧
+    flatten (runNode (KvApi.gtE 0) ⟨[], []⟩ ops).1.nodes = (runSpec (KvApi.gtE 0) [] ops).1 ∧
+    NodeInv (KvApi.gtE 0) (runNode (KvApi.gtE 0) ⟨[], []⟩ ops).1.nodes :=
+  have r := store_refines_map 0 ops (KvApi.opsOn_mono KvApi.valid_plain h)
+  ⟨r.1, r.2.1, r.2.2.1⟩
+
+/-- byte-string keys with compound part (`IWDB_COMPOUND_KEYS`): EVERY history — every pair (byte
+    string, natural number) is a key, nothing to assume. -/
+theorem compound_store_refines_map (ops : List (Op KvApi.EKey Bytes)) :
+    (runNode (KvApi.gtE Gen.IWDB_COMPOUND_KEYS) ⟨[], []⟩ ops).2 = (runSpec (KvApi.gtE Gen.IWDB_COMPOUND_KEYS) [] ops).2 ∧
+    flatten (runNode (KvApi.gtE Gen.IWDB_COMPOUND_KEYS) ⟨[], []⟩ ops).1.nodes
+      = (runSpec (KvApi.gtE Gen.IWDB_COMPOUND_KEYS) [] ops).1 ∧
+    NodeInv (KvApi.gtE Gen.IWDB_COMPOUND_KEYS) (runNode (KvApi.gtE Gen.IWDB_COMPOUND_KEYS) ⟨[], []⟩ ops).1.nodes :=
+  have r := store_refines_map Gen.IWDB_COMPOUND_KEYS ops (fun op _ => KvApi.valid_compound op.key)
+  ⟨r.1, r.2.1, r.2.2.1⟩
+
+/-- integer keys (`IWDB_VNUM64_KEYS`, with or without `IWDB_COMPOUND_KEYS`): histories over keys
+    `(Vnum.enc n, c)` with `n < 2^63`; `c` any natural number in compound mode, 0 otherwise. -/
+theorem vnum_store_refines_map (compound : Bool) (ops : List (Op KvApi.EKey Bytes))
+    (h : OpsOn (KvApi.VnumKey compound) ops) :
+    (runNode (KvApi.gtE (KvApi.vnumFlags compound)) ⟨[], []⟩ ops).2
+      = (runSpec (KvApi.gtE (KvApi.vnumFlags compound)) [] ops).2 ∧
+    flatten (runNode (KvApi.gtE (KvApi.vnumFlags compound)) ⟨[], []⟩ ops).1.nodes
+      = (runSpec (KvApi.gtE (KvApi.vnumFlags compound)) [] ops).1 ∧
+    NodeInv (KvApi.gtE (KvApi.vnumFlags compound)) (runNode (KvApi.gtE (KvApi.vnumFlags compound)) ⟨[], []⟩ ops).1.nodes :=
+  have r := store_refines_map (KvApi.vnumFlags compound) ops (KvApi.opsOn_mono (KvApi.valid_vnum compound) h)
+  ⟨r.1, r.2.1, r.2.2.1⟩
+
+/-- real-number keys (`IWDB_REALNUM_KEYS`, with or without `IWDB_COMPOUND_KEYS`; `iwafcmp` with exact
+    fractions, `Cmp.afcmp`): histories over keys `(text, c)`, any text (non-empty in compound mode). -/
+theorem real_store_refines_map (compound : Bool) (ops : List (Op KvApi.EKey Bytes))
+    (h : OpsOn (KvApi.RealKey compound) ops) :
+    (runNode (KvApi.gtE (KvApi.realFlags compound)) ⟨[], []⟩ ops).2
+      = (runSpec (KvApi.gtE (KvApi.realFlags compound)) [] ops).2 ∧
+    flatten (runNode (KvApi.gtE (KvApi.realFlags compound)) ⟨[], []⟩ ops).1.nodes
+      = (runSpec (KvApi.gtE (KvApi.realFlags compound)) [] ops).1 ∧
+    NodeInv (KvApi.gtE (KvApi.realFlags compound)) (runNode (KvApi.gtE (KvApi.realFlags compound)) ⟨[], []⟩ ops).1.nodes :=
+  have r := store_refines_map (KvApi.realFlags compound) ops (KvApi.opsOn_mono (KvApi.valid_real compound) h)
+  ⟨r.1, r.2.1, r.2.2.1⟩
+
+/-! ### the corollaries on concrete histories -/
+
+/-- put `0102`, put `01`, put-no-overwrite `0102` (refused), get, delete `01`, get -/
+def exOpsPlain : List (Op KvApi.EKey Bytes) :=
+  [.put ([1, 2], 0) [10] 3, .put ([1], 0) [11] 0, .putNoOverwrite ([1, 2], 0) [12] 1, .get ([1, 2], 0),
+   .del ([1], 0), .get ([1], 0)]
+
+example : flatten (runNode (KvApi.gtE 0) ⟨[], []⟩ exOpsPlain).1.nodes = [(([1, 2], 0), [10])] := by
+  rw [(plain_store_refines_map exOpsPlain (by simp [OpsOn, exOpsPlain, Op.key, KvApi.PlainKey])).2.1]
+  decide
+
+/-- same body, compound parts 300 and 200: two different keys, the larger compound part first -/
+def exOpsCompound : List (Op KvApi.EKey Bytes) :=
+  [.put ([7], 200) [1] 0, .put ([7], 300) [2] 2, .get ([7], 200), .del ([7], 5), .put ([6, 9], 0) [3] 1]
+
+example : (runNode (KvApi.gtE Gen.IWDB_COMPOUND_KEYS) ⟨[], []⟩ exOpsCompound).2
+    = (runSpec (KvApi.gtE Gen.IWDB_COMPOUND_KEYS) [] exOpsCompound).2 :=
+  (compound_store_refines_map exOpsCompound).1
+
+/-- integer keys 300 (2-byte vnum), 5, 2^63-1 (9 bytes), plain and compound layout -/
+def exOpsVnum (c : Nat) : List (Op KvApi.EKey Bytes) :=
+  [.put (Vnum.enc 300, c) [1] 0, .put (Vnum.enc 5, c) [2] 4, .put (Vnum.enc (2 ^ 63 - 1), c) [3] 1,
+   .get (Vnum.enc 300, c), .del (Vnum.enc 5, c)]
+
+theorem exOpsVnum_ok (compound : Bool) (c : Nat) (hc : compound = false → c = 0) :
+    OpsOn (KvApi.VnumKey compound) (exOpsVnum c) := by
+  intro op hop
+  simp only [exOpsVnum, List.mem_cons, List.not_mem_nil, or_false] at hop
+  rcases hop with rfl | rfl | rfl | rfl | rfl
+  · exact ⟨⟨300, by decide, rfl⟩, hc⟩
+  · exact ⟨⟨5, by decide, rfl⟩, hc⟩
+  · exact ⟨⟨2 ^ 63 - 1, by decide, rfl⟩, hc⟩
+  · exact ⟨⟨300, by decide, rfl⟩, hc⟩
+  · exact ⟨⟨5, by decide, rfl⟩, hc⟩
+
+example : (runNode (KvApi.gtE (KvApi.vnumFlags false)) ⟨[], []⟩ (exOpsVnum 0)).2
+      = (runSpec (KvApi.gtE (KvApi.vnumFlags false)) [] (exOpsVnum 0)).2 ∧
+    (runNode (KvApi.gtE (KvApi.vnumFlags true)) ⟨[], []⟩ (exOpsVnum 77)).2
+      = (runSpec (KvApi.gtE (KvApi.vnumFlags true)) [] (exOpsVnum 77)).2 :=
+  ⟨(vnum_store_refines_map false _ (exOpsVnum_ok false 0 (fun _ => rfl))).1,
+   (vnum_store_refines_map true _ (exOpsVnum_ok true 77 (fun h => by cases h))).1⟩
+
+/-- real-number keys "1.5", "1.50", "-2" -/
+def exOpsReal : List (Op KvApi.EKey Bytes) :=
+  [.put ([49, 46, 53], 0) [1] 0, .put ([49, 46, 53, 48], 0) [2] 1, .put ([45, 50], 0) [3] 2,
+   .get ([49, 46, 53], 0), .del ([45, 50], 0)]
+
+example : flatten (runNode (KvApi.gtE (KvApi.realFlags false)) ⟨[], []⟩ exOpsReal).1.nodes
+    = (runSpec (KvApi.gtE (KvApi.realFlags false)) [] exOpsReal).1 :=
+  (real_store_refines_map false exOpsReal (by simp [OpsOn, exOpsReal, Op.key, KvApi.RealKey])).2.1
+
+/-- the valid-key hypothesis is what the API delivers: an 8-byte little-endian integer key -/
+example : ∃ ek, KvApi.toEffective (KvApi.vnumFlags true) [44, 1, 0, 0, 0, 0, 0, 0] 9 = .ok ek ∧
+    KvApi.Valid (KvApi.vnumFlags true) ek :=
+  ⟨_, rfl, api_keys_valid _ [44, 1, 0, 0, 0, 0, 0, 0] 9 _ (by simp) rfl⟩
 
 end IwModel.C01
